@@ -107,7 +107,8 @@ fn is_primary_key_range(expr: &str) -> impl Fn(&mut EGraph, Id, &Subst) -> bool 
             return false;
         };
         if let Some(col) = egraph.analysis.catalog.get_column(column) {
-            col.is_primary()
+            // The storage can only seek and filter on an INT key stored as the first column.
+            col.is_primary() && column.column_id == 0 && col.data_type() == crate::types::DataType::Int32
         } else {
             // handle the case that catalog is not initialized, like in test cases
             false
